@@ -2218,7 +2218,8 @@ def run_auth_scripts(
             stack_max_item_size=stack_max_item_size,
             callstack_limit=callstack_limit
         )
-        assert tape.has_terminated()
+        if not tape.has_terminated():
+            return False
         contracts = tape.contracts
         plugins = tape.plugins
 
@@ -2235,12 +2236,13 @@ def run_auth_scripts(
             tape.plugins = plugins
             cache.pop('returned', None)
             run_tape(tape, stack, cache)
-            assert tape.has_terminated()
+            if not tape.has_terminated():
+                return False
 
-        assert len(stack) == 1
+        if len(stack) != 1:
+            return False
         item = stack.get()
-        assert item == b'\xff'
-        return True
+        return item == b'\xff'
     except BaseException as e:
         return False
 
